@@ -907,6 +907,15 @@ func runHistCase(idx int, dir, tier string, seed int64) *caseResult {
 						fmt.Printf("EXTRA family %s metric %s memdbs %+v blocks %+v\n", f.Indicator(), ms.Name, f.GetState().MemoryDatabases, blocks)
 					}
 				}
+				for _, ms := range sc.Metrics {
+					for fk, blocks := range r.track.fileBlocks(ms.Name) {
+						for pl, b := range blocks {
+							fmt.Printf("EXTRA tracker %s family %v place %s slots %d-%d fields %v series %d\n", ms.Name, fk, pl, b.lo, b.hi, b.fields, len(b.series))
+						}
+					}
+					fmt.Printf("EXTRA tracker %s fieldIdx %v\n", ms.Name, r.track.fieldIdx[ms.Name])
+				}
+				fmt.Printf("EXTRA tracker memIdx %v\n", r.track.memIdx)
 				os.Exit(0)
 			}
 			if os.Getenv("C11_VERBOSE") != "" {
